@@ -1559,7 +1559,7 @@ def is_valid_value_of_subtype(val, subtype, adapt_kwargs) -> bool:
         adapted = adapt_typehints(val, subtype, **{**adapt_kwargs, "serialize": False})
     except Exception:
         return False
-    return type(adapted) is type(val) and adapted == val
+    return type(adapted) is type(val) and (adapted == val or (adapted != adapted and val != val))  # nan != nan
 
 
 def is_literal_member(val, subtypehints) -> bool:
